@@ -159,6 +159,25 @@ def tla_set(xs):
     return "{" + ", ".join(f(x) for x in xs) + "}"
 
 
+def apalache(run, subdir, module, args, timeout=600):
+    """Run apalache-mc check in a scratch copy; returns (ok, no_error, output).  Tool trouble is Inconclusive."""
+    d = run.tmp("apa")
+    os.makedirs(d, exist_ok=True)
+    src = os.path.join(run.specdir, subdir, module + ".tla")
+    shutil.copy(src, d)
+    cmd = ["apalache-mc", "check", "--out-dir=" + os.path.join(d, "out")] + list(args) + [module + ".tla"]
+    try:
+        p = subprocess.run(cmd, cwd=d, stdout=subprocess.PIPE, stderr=subprocess.STDOUT, text=True, timeout=timeout)
+    except (subprocess.TimeoutExpired, FileNotFoundError) as ex:
+        raise Inconclusive("apalache-mc %s: %s" % (module, ex))
+    out = p.stdout
+    if "EXITCODE: OK" in out:
+        return True, out
+    if "EXITCODE: ERROR (12)" in out or "violat" in out.lower():
+        return False, out
+    raise Inconclusive("apalache-mc %s failed: %s" % (module, out[-800:]))
+
+
 def model_check(run, subdir, module, constants, invariants=(), properties=(), constraint=None, view=None,
                 edges=False, workers=None, timeout=3600, label=None, symmetry=None, spec="Spec",
                 expect_violation=False, coverage=False, action_constraint=None):
